@@ -177,6 +177,13 @@ def _runner(inp, outp):
         apply(x, mode)
         return 1
 
+    from pydra.compose import workflow
+
+    @workflow.define
+    def WMut(x: ty.Any, mode: str, tagn: int) -> int:
+        node = workflow.add(MutAny(x=x, mode=mode, y=[1, 2]), name="node")
+        return node.out
+
     ShFile = shell.define("sh <script:str> <x:generic/file> <mode:str>", name="ShFile")
     ShFileCopy = shell.define("sh <script:str> <x:generic/file> <mode:str>",
                               inputs={"x": shell.arg(type=File, copy_mode=File.CopyMode.copy)}, name="ShFileCopy")
@@ -277,20 +284,47 @@ def _runner(inp, outp):
                     x2 = copy.deepcopy(x)
                     apply(x2, mode)
                     mutated = enc(x2)
+                via = c.get("via", "top")
                 task = build(kind, x, mode)
                 cs0 = task._checksum
                 cs_pristine = build(kind, make_value(kind, a, base) if kind not in FILE_KINDS else x, mode)._checksum
+                expected_dirs = [cs0]
                 catch = Catch()
                 lg = logging.getLogger("pydra.submitter")
                 lg.addHandler(catch)
+                ob["hash_error_text"] = False
                 try:
-                    with Submitter(worker=c["worker"], cache_root=cache, **({"n_procs": 1} if c["worker"] == "cf" else {})) as sub:
-                        res = sub(task, raise_errors=c["re"])
+                    wk = {"worker": "cf", "n_procs": 2} if c["worker"] == "cf" else {"worker": "debug"}
+                    if via == "pickled":
+                        # a job shipped by pickle after its checksum was computed (what every scheduler that looks
+                        # at job.checksum / job.done before dispatching does), run from the copy
+                        import cloudpickle as cp
+                        from pydra.engine.job import Job
+                        with Submitter(worker="debug", cache_root=cache) as sub:
+                            job = Job(task, submitter=sub, name="main")
+                            assert job.checksum == cs0
+                            job2 = cp.loads(cp.dumps(job))
+                            res = job2.run()
+                    elif via == "wfnode":
+                        # the mutating task as a node of a workflow (under cf the node job is pickled into a worker
+                        # process after the scheduler has asked for its checksum)
+                        wf = WMut(x=x, mode=mode, tagn=1000 * os.getpid() + n)   # tagn: never share a constructed workflow
+                        expected_dirs = sorted([cs0, wf._checksum])
+                        with Submitter(cache_root=cache, **wk) as sub:
+                            res = sub(wf, raise_errors=c["re"])
+                        if res.errored and res.errors:
+                            ob["hash_error_text"] = "hashes have changed" in "".join(res.errors["error message"])
+                    else:
+                        with Submitter(cache_root=cache, **wk) as sub:
+                            res = sub(task, raise_errors=c["re"])
                     ob["outcome"] = ["result", bool(res.errored)]
                 except Exception as e:
+                    import traceback
                     ob["outcome"] = ["exc", type(e).__name__, str(e).splitlines()[0][:100]]
+                    ob["hash_error_text"] = "hashes have changed" in traceback.format_exc()
                 finally:
                     lg.removeHandler(catch)
+                ob["expected_dirs"] = expected_dirs
                 ob["swallowed"] = any("Task execution failed" in m for m in catch.msgs)
                 ob["dirs"] = sorted(d for d in os.listdir(cache) if os.path.isdir(os.path.join(cache, d)) and d != "pkl_files") \
                     if os.path.isdir(cache) else []
@@ -372,12 +406,18 @@ Definition not_F19 (c : case_t) : bool :=
 """
 
 
+MEM_KINDS = [k for k in KINDS if k not in FILE_KINDS]
+
+
 def gen_case(rng):
-    kind = rng.choice(list(KINDS))
+    via = rng.choice(["top", "top", "top", "wfnode", "wfnode", "pickled"])
+    kind = rng.choice(list(KINDS) if via == "top" else MEM_KINDS)
     mode = rng.choice(KINDS[kind])
-    worker = "cf" if rng.random() < 0.2 else "debug"
+    worker = "cf" if rng.random() < (0.2 if via == "top" else 0.5) else "debug"
+    if via == "pickled":
+        worker = "debug"
     re = rng.choice([None, None, True, False])
-    return {"kind": kind, "mode": mode, "worker": worker, "re": re, "a": rng.randrange(1, 4)}
+    return {"kind": kind, "mode": mode, "worker": worker, "re": re, "a": rng.randrange(1, 4), "via": via}
 
 
 class Intern:
@@ -413,10 +453,15 @@ def inputs_term(x, c, intern):
 
 def observe(c, o):
     """-> (name_ok, detected, reported)"""
-    name_ok = o["dirs"] == [o["cs0"]] and o["cs0"] == o["cs_pristine"]
-    exc_hash = o["outcome"][0] == "exc" and "hashes have changed" in o["outcome"][2]
-    detected = exc_hash or (o["swallowed"] and o["outcome"] == ["result", False])
+    via = c.get("via", "top")
+    name_ok = o["dirs"] == o["expected_dirs"] and o["cs0"] == o["cs_pristine"]
     reported = o["outcome"][0] == "exc" or o["outcome"] == ["result", True]
+    if via == "top":
+        exc_hash = o["outcome"][0] == "exc" and "hashes have changed" in o["outcome"][2]
+        detected = exc_hash or (o["swallowed"] and o["outcome"] == ["result", False])
+    else:
+        # the check's RuntimeError surfaces directly (pickled job) or as the error of the enclosing workflow
+        detected = bool(o["hash_error_text"])
     return name_ok, detected, reported
 
 
@@ -455,12 +500,17 @@ def to_terms(cases, obs):
             continue
         intern = Intern()
         name_ok, det, rep = observe(c, o)
+        via = c.get("via", "top")
         re_eff = (c["worker"] == "debug") if c["re"] is None else c["re"]
+        if via != "top":
+            # a pickled job's check raises straight to its caller; a node's failure makes the enclosing workflow an
+            # errored result, which is reported whatever raise_errors says
+            re_eff = True
         copy = c["kind"].endswith("_copy")
         is_py = not c["kind"].startswith("shfile")
-        shared = c["worker"] == "debug" or c["kind"] in FILE_KINDS
+        shared = (c["worker"] == "debug" and via != "pickled") or c["kind"] in FILE_KINDS
         terms.append("(%s, %s, %s, %s, %s, %s, %s, %s, (%s, %s, %s, %s))" % (
-            coqio.boolean(o["shape_hashed"]), coqio.boolean(re_eff), coqio.boolean(c["worker"] == "cf"), coqio.boolean(copy), coqio.boolean(is_py),
+            coqio.boolean(o["shape_hashed"]), coqio.boolean(re_eff), coqio.boolean(c["worker"] == "cf" and via == "top"), coqio.boolean(copy), coqio.boolean(is_py),
             coqio.boolean(shared), inputs_term(o["before"], c, intern), inputs_term(o["mutated"], c, intern),
             coqio.boolean(name_ok), coqio.boolean(det), coqio.boolean(rep), inputs_term(o["after"], c, intern)))
     return terms, problems
@@ -470,11 +520,12 @@ def run(ctx):
     os.makedirs(ctx.scratch.dir, exist_ok=True)
     rng = ctx.rng
     n = ctx.budget(90, 400)
-    cases = [{k: c[k] for k in ("kind", "mode", "worker", "re", "a")} for c in ctx.corpus() if "kind" in c]
+    cases = [{k: c.get(k, "top") if k == "via" else c[k] for k in ("kind", "mode", "worker", "re", "a", "via")}
+             for c in ctx.corpus() if "kind" in c]
     # every (kind, mode) once under the debug worker with raise_errors, then random
     for kind, modes in KINDS.items():
         for mode in modes:
-            cases.append({"kind": kind, "mode": mode, "worker": "debug", "re": True, "a": 1})
+            cases.append({"kind": kind, "mode": mode, "worker": "debug", "re": True, "a": 1, "via": "top"})
     while len(cases) < n:
         cases.append(gen_case(rng))
     obs = run_cases_impl(cases)
@@ -493,6 +544,7 @@ def run(ctx):
         dist["worker_cf"] += c["worker"] == "cf"
         re_eff = (c["worker"] == "debug") if c["re"] is None else c["re"]
         dist["raise_errors_false_effective"] += not re_eff
+        dist["via_" + c.get("via", "top")] = dist.get("via_" + c.get("via", "top"), 0) + 1
         mut = o["before"] != o["mutated"]
         dist["really_mutating"] += mut
         dist["file_inputs"] += c["kind"] in FILE_KINDS
@@ -505,7 +557,7 @@ def run(ctx):
             seen.add(json.dumps(c, sort_keys=True))
     out.distinct_nontrivial = len(seen)
     out.distribution = dist
-    out.samples = [{"case": c, "outcome": o.get("outcome"), "dirs_equal_original_identity": o.get("dirs") == [o.get("cs0")],
+    out.samples = [{"case": c, "outcome": o.get("outcome"), "dirs_equal_original_identity": o.get("dirs") == o.get("expected_dirs"),
                     "before": o.get("before"), "after": o.get("after")} for c, o in list(zip(cases, obs))[:40:10]]
     for c, err in problems[:5]:
         out.failures.append(Failure(case=c, observed=err, note="the case could not be driven", kind="tie"))
@@ -517,7 +569,7 @@ def run(ctx):
                 None: "in-place modification of an input not handled as the property states"}[fid]
         out.failures.append(Failure(case=c, observed={"outcome": o["outcome"], "swallowed_error_logged": o["swallowed"],
                                                        "stored": o["stored"], "before": o["before"], "after": o["after"],
-                                                       "stored_under_original_identity": o["dirs"] == [o["cs0"]]},
+                                                       "stored_under_original_identity": o["dirs"] == o["expected_dirs"]},
                                     expected="reported iff the body changed the input; copy mode: original untouched, nothing reported; "
                                              "result under the original identity", kind="spec", finding=fid, note=what))
     for i in res["tie"][:10]:
